@@ -927,28 +927,138 @@ func checkNoSplit1(c *facet.Ctx, in StrCase) *facet.Failure {
 	return contiguousRun(in, cl, got)
 }
 
+// ------------------------------------------------------------------ cluster/no-split/format and /reverse
+
+func genNoSplitFmt(t *rapid.T) StrCase {
+	fn := rapid.SampledFrom([]string{"format", "reverse"}).Draw(t, "fn")
+	n := rapid.IntRange(1, 8).Draw(t, "len")
+	var b strings.Builder
+	for i := 0; i < n; i++ {
+		b.WriteString(rapid.SampledFrom(clusterPool[21:]).Draw(t, "c"))
+	}
+	if fn == "reverse" {
+		return StrCase{Fn: fn, S: []string{b.String()}}
+	}
+	w := rapid.IntRange(-1, 12).Draw(t, "width")
+	pr := rapid.IntRange(-1, 9).Draw(t, "prec")
+	if pr == 0 {
+		pr = 1 // precision zero: known finding C14-format-string-precision-zero, covered by ref/format
+	}
+	flag := rapid.SampledFrom([]string{"", "", "-"}).Draw(t, "flag")
+	return StrCase{Fn: fn, S: []string{b.String(), flag}, N: []spec.Num{spec.NInt(int64(w)), spec.NInt(int64(pr))}}
+}
+
+func checkNoSplitFmt(c *facet.Ctx, in StrCase) *facet.Failure {
+	fl := checkNoSplitFmt1(c, in)
+	if fl != nil && zwjPictAfterHangulOrRI(nfc(in.S[0])) {
+		fl.With("zwj-pict-after", "hangul-or-ri")
+	}
+	return fl
+}
+
+func checkNoSplitFmt1(c *facet.Ctx, in StrCase) *facet.Failure {
+	c.Label("fn=" + in.Fn)
+	s := nfc(in.S[0])
+	cl := segment(s)
+	if n := textsegCount(s); n != len(cl) {
+		return facet.Failf("segmenter-disagreement", "own UAX#29 segmenter finds %d clusters %+q in %+q, the textseg library %d", len(cl), cl, s, n)
+	}
+	if in.Fn == "reverse" {
+		o := call(stdlib.ReverseFunc, cty.StringVal(in.S[0]))
+		got, fl := strResult(in.Fn, o, in)
+		if fl != nil {
+			return fl
+		}
+		if hasMultiRuneCluster(cl) && len(cl) > 1 {
+			c.NonTrivial()
+		}
+		// every cluster of the input must survive intact, in reverse order
+		// (the result is normalised again: a cluster that starts with a
+		// combining mark, only possible after a control character, may fuse
+		// with its new left neighbour; compare on the normalised join)
+		rest := got
+		var b strings.Builder
+		for i := len(cl) - 1; i >= 0; i-- {
+			b.WriteString(cl[i])
+		}
+		if rest != nfc(b.String()) {
+			return facet.Failf("cluster-split", "reverse(%+q) = %+q does not consist of the input's clusters %+q in reverse order", s, got, cl).With("fn", in.Fn)
+		}
+		return nil
+	}
+	w, _ := intOf(in.N[0])
+	pr, _ := intOf(in.N[1])
+	v := Verb{Flags: in.S[1], Width: w, Prec: pr, Mode: "s"}
+	o := call(stdlib.FormatFunc, cty.StringVal(v.text(false)), cty.StringVal(in.S[0]))
+	got, fl := strResult(in.Fn, o, in)
+	if fl != nil {
+		return fl
+	}
+	keep := len(cl)
+	if pr >= 0 && pr < keep {
+		keep = pr
+	}
+	body := strings.Join(cl[:keep], "")
+	pad := 0
+	if w > keep {
+		pad = w - keep
+	}
+	if hasMultiRuneCluster(cl) && (pr >= 0 && pr < len(cl) || pad > 0) {
+		c.NonTrivial()
+	}
+	want := strings.Repeat(" ", pad) + body
+	if in.S[1] == "-" {
+		want = body + strings.Repeat(" ", pad)
+	}
+	want = nfc(want)
+	if got != want {
+		// distinguish a split cluster from a miscounted width
+		trimmed := strings.Trim(got, " ")
+		if !strings.HasPrefix(s, trimmed) || !atClusterBoundary(cl, len(trimmed)) {
+			return facet.Failf("cluster-split", "format(%q, %+q) = %+q cuts the input inside a grapheme cluster (clusters %+q)", v.text(false), s, got, cl).With("fn", in.Fn)
+		}
+		return mismatch(in.Fn, fmt.Sprintf("%q, %+q", v.text(false), s), strconv.QuoteToASCII(got), strconv.QuoteToASCII(want))
+	}
+	return nil
+}
+
+func atClusterBoundary(cl []string, n int) bool {
+	pos := 0
+	for _, c := range cl {
+		if pos == n {
+			return true
+		}
+		pos += len(c)
+	}
+	return pos == n
+}
+
 var _ = sort.Strings
 
 func init() {
 	const strRule = "strings are concatenations of pieces from a cluster pool (ASCII, CR/LF/CRLF, combining sequences precomposed and decomposed, Hangul jamo and syllables, emoji with modifiers / ZWJ sequences / VS16, regional-indicator pairs, Prepend and SpacingMark samples, lone ZWJ and lone combining mark) or from word pools with case-mapping specials; every string is NFC-normalised by the reference exactly as cty.StringVal documents; "
 	facet.Register(facet.F[StrCase]{
 		Prop: "C14", Name: "ref/case-trim", Rule: strRule + "reference = strings.ToUpper/ToLower/Title/Trim/TrimPrefix/TrimSuffix, TrimFunc(unicode.IsSpace), TrimRight(\"\\r\\n\"); non-trivial = the function changes a string that has a multi-code-point cluster or non-ASCII text",
-		Quick: 40000, Thorough: 300000, Gen: genCaseTrim, Check: wrap(checkCaseTrim),
+		Quick: 100000, Thorough: 300000, Gen: genCaseTrim, Check: wrap(checkCaseTrim),
 	})
 	facet.Register(facet.F[StrCase]{
 		Prop: "C14", Name: "ref/indent-replace-split-join", Rule: strRule + "indent counts 0..9 (non-int and negative counts are out of domain); reference = own rune loop for indent, strings.ReplaceAll / Split / Join; non-trivial = result differs / has several parts and the text has a multi-code-point cluster or is non-ASCII; indent: has a newline and count > 0",
-		Quick: 40000, Thorough: 300000, Gen: genIRSJ, Check: wrap(checkIRSJ),
+		Quick: 80000, Thorough: 300000, Gen: genIRSJ, Check: wrap(checkIRSJ),
 	})
 	facet.Register(facet.F[StrCase]{
 		Prop: "C14", Name: "ref/regex", Rule: strRule + "patterns from a small RE2 grammar (atoms, classes, quantifiers, alternation, anchors; no / unnamed / named / mixed capture groups; 5% invalid patterns); reference = regexp (FindStringSubmatchIndex, FindAllStringSubmatchIndex, ReplaceAllString) mapped to the documented result shape (string / tuple / object, null for unmatched groups, error on no match / mixed groups / invalid pattern); non-trivial = capture groups, several matches, replacement changes the string, or a documented error",
-		Quick: 30000, Thorough: 300000, Gen: genRegex, Check: wrap(checkRegex),
+		Quick: 60000, Thorough: 300000, Gen: genRegex, Check: wrap(checkRegex),
 	})
 	facet.Register(facet.F[StrCase]{
 		Prop: "C14", Name: "ref/cluster", Rule: strRule + "substr offsets -10..10 and lengths -3..10 through int/float/parsed routes; reference = own UAX#29 segmenter restricted to the alphabet (cross-checked against go-textseg's count as a sanity check only): strlen = cluster count, reverse = clusters reversed, substr = clusters[offset:offset+length] with negative offset relative to the end and length -1 = rest; substr results must be runs of whole clusters; non-trivial = a multi-code-point cluster at the offset / end boundary (substr) or anywhere (strlen, reverse)",
-		Quick: 40000, Thorough: 300000, Gen: genCluster, Check: wrap(checkCluster),
+		Quick: 100000, Thorough: 300000, Gen: genCluster, Check: wrap(checkCluster),
 	})
 	facet.Register(facet.F[StrCase]{
 		Prop: "C14", Name: "cluster/no-split/substr", Rule: "strings of 1..8 multi-code-point clusters, any integer offset -12..12 and length -5..12 (also where the offset semantics are undocumented); asserted: the result is the concatenation of a contiguous run of the input's clusters; non-trivial = non-empty proper part of a string with a multi-code-point cluster",
-		Quick: 30000, Thorough: 300000, Gen: genNoSplit, Check: wrap(checkNoSplit),
+		Quick: 60000, Thorough: 300000, Gen: genNoSplit, Check: wrap(checkNoSplit),
+	})
+	facet.Register(facet.F[StrCase]{
+		Prop: "C14", Name: "cluster/no-split/format-reverse", Rule: "strings of 1..8 multi-code-point clusters; format with %<w>.<p>s (width -1..12, precision -1..9 except 0, optional '-') must output a prefix of whole clusters padded to the width counted in clusters; reverse must output the same clusters in reverse order; non-trivial = a multi-code-point cluster and truncation or padding (format), more than one cluster (reverse)",
+		Quick: 60000, Thorough: 300000, Gen: genNoSplitFmt, Check: wrap(checkNoSplitFmt),
 	})
 }
